@@ -4,6 +4,8 @@ import re
 from cv import flow, fmtshape, rules
 from cv.rules import events_of
 
+from props import common
+
 TITLE = "Exclusions mean the same thing at backup, list and restore time"
 TECHNIQUE = 'static analysis: provenance of matcher arguments on both sides, sibling agreement of the two glob builders incl. decoded format templates, dominance (prune before queue)'
 EXPLANATION = (
@@ -206,3 +208,6 @@ def run(ck, w):
             ck.ok(o)
         else:
             ck.fail(o, fn, "exclude not forwarded by identity", "argument from %s" % flow.origin_summary(a))
+    for i, adt in enumerate(("BackupOptions", "RestoreOptions", "DiffOptions")):
+        common.cli_option(ck, w, "C15.4h%d" % i, adt, "exclude", ("call", "Exclude::from_patterns_and_files"))
+    common.stitch_drops_only_filtered(ck, w, "C15.1d")
